@@ -1,6 +1,6 @@
 import BSModel.Proofs.PrettyStream
 import BSModel.Proofs.PrettyTokens
-import BSModel.Proofs.PrettyReparseNorm
+import BSModel.Proofs.PrettyReparseWritable
 import BSModel.Props.C05
 /-! # C14 — prettify() changes only whitespace and shows the nesting
 
@@ -672,17 +672,17 @@ open BS.PrettyReparse in
 /-- **The pretty output is the plain output of the tree with the whitespace strings added**, character for character: C14's
     loop (`decodeImpl`, levels, literal mode, `strip`, `_indent_string`) run on the pieces C05's renderer computes, at any
     start level, equals C05's `renderL` of `prettyTreeL`; and in plain mode it is `renderL` of the tree itself. For the
-    formatters that substitute with `substitute_xml` ('minimal'), every forest without hidden elements / cdata-named
-    elements (`renderWritableL`), a whitespace indent unit. -/
+    formatters that substitute with `substitute_xml` ('minimal', whatever their `cdata_containing_tags`), every forest
+    without hidden elements — `script`/`style` with their unsubstituted text included: both `substitute_xml` and the
+    identity commute with `strip` and leave whitespace alone (`SubstOK`) —, a whitespace indent unit. -/
 theorem pretty_output_is_plain_output (ci : BS.Render.SCls → BS.Render.ClsInfo) (hci : ∀ c, ci c = BS.Render.assumedMarkup c)
     (f : BS.Render.Fmt) (hf : f.subst = some BS.Render.substXml) (u : PStr) (hu : ∀ c ∈ u, isSpace c = true)
-    (pwt : Option (List PStr)) (iv : PStr → Bool) (l : Int) (ds : List BS.Render.Node)
-    (h : BS.Render.renderWritableL iv f ds = true) :
+    (pwt : Option (List PStr)) (l : Int) (ds : List BS.Render.Node) (h : noHiddenL ds = true) :
     decodeImpl u (some l) (eventsL (toPL ci f pwt none 0 ds)) = BS.Render.renderL ci f none (prettyTreeL u pwt l ds) ∧
     decodeImpl u none (eventsL (toPL ci f pwt none 0 ds)) = BS.Render.renderL ci f none ds := by
   constructor
   · rw [pretty_refines_contents u l _ (distinctL_toPL ci f pwt ds none 0)]
-    exact prettyL_eq_renderL ci hci f hf u hu pwt iv ds none 0 l rfl h
+    exact prettyL_eq_renderL ci hci f hf u hu pwt ds none 0 l h
   · rw [plain_refines_contents, plainL_toPL]
 
 open BS.PrettyReparse in
@@ -699,11 +699,23 @@ theorem pretty_tree_same_parse (cfg : BS.Builder.Cfg) (hw : CfgWs cfg) (f : BS.R
   erase_normalise_pretty hw f u hu pwt l ds ha
 
 open BS.PrettyReparse in
+/-- **`RenderWritable` is inherited by the pretty tree**: all three parts — the renderer-side class `renderWritableL`, C04's
+    `Writable` under `minimalChoices` (restated path-independently: `writable_minimal_iff`; text is always writable under
+    the minimal spelling, so stripping and the added whitespace strings are harmless) and `Representable` (a laid-out
+    element gets children, but it is not a void name). For every unit (whitespace or not), level and `pwt`. -/
+theorem pretty_tree_render_writable (bcfg : BS.Builder.Cfg) (acfg : BS.Adapter.ACfg) (f : BS.Render.Fmt) (u : PStr)
+    (pwt : Option (List PStr)) (l : Int) (ds : List BS.Render.Node) (h : BS.Props.C05.RenderWritable bcfg acfg f ds) :
+    BS.Props.C05.RenderWritable bcfg acfg f (prettyTreeL u pwt l ds) := by
+  obtain ⟨h1, h2, h3⟩ := h
+  obtain ⟨k1, k2, k3⟩ := parts_treeL acfg.isVoid bcfg.rootName f u pwt ds l h1
+    ((writable_minimal_iff acfg.isVoid _).mp h2) h3
+  exact ⟨k1, (writable_minimal_iff acfg.isVoid _).mpr k2, k3⟩
+
+open BS.PrettyReparse in
 /-- **`prettify_reparse_tokenized`** — "pretty-printed output re-parses to the same tree as the plain output once whitespace
     inside text is disregarded", with the parser modelled end to end. For every builder/adapter configuration (`CfgOK`, `CfgWs`,
     `EntOK`), `ParamsOK` tokenizer parameters, the 'minimal' formatter, whitespace unit `u`, start level `l`, and every forest
-    `ds` that is `RenderWritable` together with its pretty tree (both decidable; that the second follows from the first is
-    not proved — see the note after the examples): tokenizing `decode(indent_level=l)`'s text (the loop of `Tag.decode` on the real
+    `RenderWritable` forest `ds` (its pretty tree then is, too: `pretty_tree_render_writable`): tokenizing `decode(indent_level=l)`'s text (the loop of `Tag.decode` on the real
     pieces) with the model of CPython's tokenizer and building the tree gives, after `eraseWsL`, the same tree as doing so
     with `decode()`'s text — and that tree is the normal form of `ds`. Elements, nesting, special strings and everything inside
     whitespace-preserving elements are compared exactly; character data elsewhere up to its whitespace characters. -/
@@ -711,8 +723,7 @@ theorem prettify_reparse_tokenized (bcfg : BS.Builder.Cfg) (acfg : BS.Adapter.AC
     (hw : CfgWs bcfg) (P : BS.Tokenizer.Params) (hP : BS.WriterText.ParamsOK P) (he : BS.WriterMin.EntOK acfg)
     (ci : BS.Render.SCls → BS.Render.ClsInfo) (hci : ∀ c, ci c = BS.Render.assumedMarkup c) (f : BS.Render.Fmt)
     (hf : BS.Render.IsMinimal f) (u : PStr) (hu : ∀ c ∈ u, isSpace c = true) (pwt : Option (List PStr)) (l : Int)
-    (ds : List BS.Render.Node) (h : BS.Props.C05.RenderWritable bcfg acfg f ds)
-    (h' : BS.Props.C05.RenderWritable bcfg acfg f (prettyTreeL u pwt l ds)) (ha : preAgreeL bcfg pwt ds = true) :
+    (ds : List BS.Render.Node) (h : BS.Props.C05.RenderWritable bcfg acfg f ds) (ha : preAgreeL bcfg pwt ds = true) :
     eraseWsL bcfg (BS.Adapter.adapterBuild bcfg acfg (BS.Tokenizer.callbacks (BS.Tokenizer.run P
         (decodeImpl u (some l) (eventsL (toPL ci f pwt none 0 ds)))))).1 =
       eraseWsL bcfg (BS.Adapter.adapterBuild bcfg acfg (BS.Tokenizer.callbacks (BS.Tokenizer.run P
@@ -720,7 +731,8 @@ theorem prettify_reparse_tokenized (bcfg : BS.Builder.Cfg) (acfg : BS.Adapter.AC
     eraseWsL bcfg (BS.Adapter.adapterBuild bcfg acfg (BS.Tokenizer.callbacks (BS.Tokenizer.run P
         (decodeImpl u (some l) (eventsL (toPL ci f pwt none 0 ds)))))).1 =
       eraseWsL bcfg (BS.Writer.normalise bcfg (BS.Render.toWDocL f ds)) := by
-  obtain ⟨e1, e2⟩ := pretty_output_is_plain_output ci hci f hf.1 u hu pwt acfg.isVoid l ds h.1
+  obtain ⟨e1, e2⟩ := pretty_output_is_plain_output ci hci f hf.1 u hu pwt l ds (noHiddenL_of_writable acfg.isVoid f ds h.1)
+  have h' := pretty_tree_render_writable bcfg acfg f u pwt l ds h
   rw [e1, e2, BS.Props.C05.reparse_roundtrip_tokenized bcfg acfg hc P hP he ci hci f hf _ h',
     BS.Props.C05.reparse_roundtrip_tokenized bcfg acfg hc P hP he ci hci f hf _ h]
   exact ⟨pretty_tree_same_parse bcfg hw f u hu pwt l ds ha, pretty_tree_same_parse bcfg hw f u hu pwt l ds ha⟩
@@ -747,6 +759,15 @@ example : BS.PrettyReparse.preAgreeL BS.Props.C04.xB tkPwt tkForest = true := by
 example : decodeImpl (ofS " ") (some 0) (eventsL (BS.PrettyReparse.toPL BS.Gen.C05.liveClsInfo BS.Props.C05.minimalHtml tkPwt none 0 tkForest)) =
     ofS "<!DOCTYPE html>\n<p id=\"x&amp;y\">\n a&lt;b  &amp; c\n <br/>\n <!-- note -->\n <b>\n  x\n </b>\n <i>\n </i>\n</p>\n<pre> \n k <b> y </b></pre>\n" := by
   decide +kernel
+/-- the theorem on the sample: both parses, erased, are the erased normal form below -/
+example : BS.PrettyReparse.eraseWsL BS.Props.C04.xB (BS.Adapter.adapterBuild BS.Props.C04.xB BS.Props.C05.tkA
+      (BS.Tokenizer.callbacks (BS.Tokenizer.run BS.Props.C04.xP (decodeImpl (ofS " ") (some 0)
+        (eventsL (BS.PrettyReparse.toPL BS.Gen.C05.liveClsInfo BS.Props.C05.minimalHtml tkPwt none 0 tkForest)))))).1 =
+    BS.PrettyReparse.eraseWsL BS.Props.C04.xB
+      (BS.Writer.normalise BS.Props.C04.xB (BS.Render.toWDocL BS.Props.C05.minimalHtml tkForest)) :=
+  (prettify_reparse_tokenized _ BS.Props.C05.tkA (by decide) tk_cfg_ws _ BS.Props.C04.xP_ok ⟨rfl, rfl, rfl⟩ BS.Gen.C05.liveClsInfo
+    BS.Props.C05.class_table_live _ BS.Props.C05.minimal_is_minimal.1 (ofS " ") (by decide) tkPwt 0 tkForest (by decide +kernel)
+    (by decide)).2
 /-- what both parses are, after erasing -/
 example : BS.PrettyReparse.eraseWsL BS.Props.C04.xB
       (BS.Writer.normalise BS.Props.C04.xB (BS.Render.toWDocL BS.Props.C05.minimalHtml tkForest)) =
@@ -754,11 +775,22 @@ example : BS.PrettyReparse.eraseWsL BS.Props.C04.xB
      .elem (ofS "p") none [.text 0 (ofS "a<b&c"), .elem (ofS "br") none [], .text 1 (ofS " note "),
        .elem (ofS "b") none [.text 0 (ofS "x")], .elem (ofS "i") none []],
      .elem (ofS "pre") none [.text 0 (ofS " \n k "), .elem (ofS "b") none [.text 0 (ofS " y ")]]] := by rfl
-/-! NOT proved: `RenderWritable … ds → RenderWritable … (prettyTreeL u pwt l ds)` (the added strings are whitespace, stripping
-    removes characters only, so it holds; the proof needs `Writable` under `minimalChoices` restated path-independently).
-    Until then `h'` is a separate, decidable hypothesis — evaluated in the example above. Outside `RenderWritable` (script/style,
-    single-quoted values, other formatters, hidden elements, non-whitespace units) the clause rests on the harness stream
-    `reparse-model` (real prettify()/decode() text → real parser vs tokenizer model + builder model, erased trees compared). -/
+/-! Outside `RenderWritable` (script/style, single-quoted values, other formatters, hidden elements, non-whitespace units) the
+    clause rests on the harness stream `reparse-model` (real prettify()/decode() text → real parser vs tokenizer model + builder
+    model, erased trees compared). -/
+
+/-- script and style (outside `RenderWritable`: C04's writer has no raw-text elements, so the tokenizer step is recorded for
+    them): the text-level bridge and the document-level comparison still apply — their text is not substituted, is stripped
+    and indented like any other text, and the two documents build the same tree modulo whitespace -/
+def tkScript : List BS.Render.Node :=
+  [.tag (BS.Props.C05.tg "div") [.tag (BS.Props.C05.tg "script") [.str .script (ofS " a<b && c ")],
+     .tag (BS.Props.C05.tg "style") [.str .stylesheet (ofS "\n")], .str .navigable (ofS " x<y ")]]
+example : BS.PrettyReparse.noHiddenL tkScript = true ∧ BS.PrettyReparse.preAgreeL BS.Props.C04.xB tkPwt tkScript = true ∧
+    BS.Render.renderWritableL BS.Props.C05.tkA.isVoid BS.Props.C05.minimalHtml tkScript = false := by decide
+example : decodeImpl (ofS " ") (some 0) (eventsL (BS.PrettyReparse.toPL BS.Gen.C05.liveClsInfo BS.Props.C05.minimalHtml tkPwt none 0 tkScript)) =
+    ofS "<div>\n <script>\n  a<b && c\n </script>\n <style>\n </style>\n x&lt;y\n</div>\n" := by decide +kernel
+/-- a hidden element is outside the bridge: it has no pieces, so no line, while `prettyTree` would give it one -/
+example : BS.PrettyReparse.noHiddenL [.tag { BS.Props.C05.tg "p" with hidden := true } []] = false := by decide
 
 /-- `preAgreeL` is needed: were `p` whitespace-preserving for the builder only, the added whitespace would survive the erasure -/
 example : BS.PrettyReparse.preAgreeL { BS.Props.C04.xB with preserve := fun n => n == ofS "p" } tkPwt tkForest = false := by decide
